@@ -23,7 +23,11 @@ SHAPES = ["{stmt}", "{stmt}", "objs[0].x {op} {c}", "same(o).x {op} {c}", "if Tr
           "o.x \\\n      {op} {c}", "o.x {op} (\n      {c})",
           # the right-hand side reads the attribute itself: on the same line, on the next line, and
           # inside a helper written elsewhere ('acct.balance += acct.interest()')
-          "o.x {op} o.x * 0 + {c}", "o.x {op} (\n      o.x * 0 + {c})", "o.x {op} rd(o) * 0 + {c}"]
+          "o.x {op} o.x * 0 + {c}", "o.x {op} (\n      o.x * 0 + {c})", "o.x {op} rd(o) * 0 + {c}",
+          # ... or the helper itself updates the attribute with an augmented assignment of its own
+          # (nested: the outer statement reads first and writes last, so what the helper adds is
+          # overwritten - also in every serial execution)
+          "o.x {op} bump(o) * 0 + {c}"]
 OPS = {"add": "+=", "sub": "-=", "mul": "*="}
 
 
@@ -74,7 +78,7 @@ class C27(Prop):
           "by a virtual lock: 2-3 threads x 1-3 statements each from {o.x = c, o.x += c, o.x -= c, "
           "o.x *= c, read o.x} on one thread-safe attribute (the augmented assignments also written as "
           "objs[0].x += c, same(o).x += c, 'if True: o.x += c', 'o . x += c', 'if o.x > -10**9: o.x += c' and "
-          "'o.x += c; out.append(o.x)' and the statement split over two lines with a backslash or parentheses, and right-hand sides that read the attribute again on the same line, on the next line or inside a helper written elsewhere'; a quarter of the programs put the statements in functions that refer to 140 "
+          "'o.x += c; out.append(o.x)' and the statement split over two lines with a backslash or parentheses, and right-hand sides that read the attribute again on the same line, on the next line or inside a helper written elsewhere, or call a helper that makes an augmented assignment of its own to the attribute'; a quarter of the programs put the statements in functions that refer to 140 "
           "other names first), written to a real source file; the class declares the attribute in _attributes only, with a class-level default of the same name as well, or inherits the declaration (miros "
           "inspects the caller's source line); pre-emption at every line of "
           "miros/thread_safe_attributes.py and of the generated file, schedules with run lengths "
@@ -98,7 +102,7 @@ class C27(Prop):
     path = os.path.join(d, "vf_attr_program.py")
     src = ""
     for t, stmts in enumerate(case["threads"]):
-      src += "def t%d(o, out):\n  objs = [o]\n  same = lambda q: q\n  rd = lambda q: q.x\n" % t
+      src += "def t%d(o, out):\n  objs = [o]\n  same = lambda q: q\n  rd = lambda q: q.x\n  def bump(q):\n    q.x += 1\n    return 1\n" % t
       if case.get("big"):
         src += "  if objs is None:\n    (%s)\n" % ", ".join("vf_n%d" % i for i in range(140))
       for st_ in stmts:
